@@ -4,9 +4,14 @@
 Every history `with compress(name): write` / `with decompress(name): read` is
 executed (a) undisturbed, (b) with an exception raised in the caller's block,
 (c) once per fault point recorded at the I/O seams of typhon.files.utils
-(mc/fault.py), (d) for decompress, on damaged archives. All temporary storage
-is directed into directories owned by the harness, which are listed (names
-and content digests) before and after each execution.
+(mc/fault.py), (d) for decompress, on damaged archives. Histories of two
+nested blocks (two decompress blocks of equally named archives; a compress
+block rewriting the archive inside its decompress block) run as (a) and (b).
+All temporary storage is directed into directories owned by the harness
+(also the working directory), which hold files of a user under the names a
+temporary could be given and are listed (names and content digests) before
+and after each execution. An audit hook watches the recording executions for
+file operations that typhon.files.utils reaches without passing a seam.
 """
 import bz2
 import contextlib
@@ -16,6 +21,7 @@ import hashlib
 import io
 import lzma
 import os
+import pathlib
 import shutil
 import sys
 import tempfile
@@ -31,29 +37,53 @@ from typhon.files import utils as tfu                   # noqa: E402
 PROP = "C12"
 LEVEL = "fault_enumeration"
 RULE = ("histories = {suffix, fmt=} x {gz,bz2,zip,xz} x names (several dots, "
-        "dotted directory, no/unknown suffix, format names in upper/mixed "
-        "case; thorough: spaces, non-ASCII, "
-        "double suffixes) x contents (empty, 1 byte, 70 kB text, 70 kB "
-        "pseudo-random, zlib blob; thorough: 8 KiB and 64 KiB +-1, and one "
-        "100 MiB + 1 byte content for gz, zip and xz) x tmpdir {default, "
+        "dotted directory, no/unknown suffix, a compression suffix on the "
+        "directory only, format names in upper/mixed case; thorough: spaces, "
+        "non-ASCII, double suffixes) x contents (empty, 1 byte, 70 kB text, "
+        "70 kB pseudo-random, zlib blob; thorough: 8 KiB and 64 KiB +-1, and "
+        "one 100 MiB + 1 byte content for gz, zip and xz) x tmpdir {default, "
         "explicit} x compress onto {no, an existing} target x decompress "
-        "target= {no, yes}, plus pass-through names. One evaluation = one "
+        "target= {no, an existing file; thorough: a new file}, plus "
+        "pass-through names; for the 1 byte content the name also as "
+        "pathlib.Path and relative to the working directory (default tmpdir, "
+        "no damaged archives, no injected faults). One evaluation = one "
         "execution of one phase: undisturbed, caller's block raising "
         "(2 positions x {Exception, BaseException}), one injected fault per "
         "recorded fault point x {OSError, BaseException} (TemporaryDirectory/"
         "NamedTemporaryFile/open/compressor constructor/zip member open/"
         "copy before, after half the bytes, after all bytes/close/unlink), "
         "archive truncated at k/8 (k=0..7), byte-flipped, garbage, zip with a "
-        "foreign member. Non-trivial = the disturbance happened: the body "
-        "exception was raised / the injected fault fired / the damaged "
-        "archive made decompress raise; undisturbed executions count when "
-        "the arguments name a compression format (an archive is written / "
-        "unpacked, not passed through). Distinct by construction.")
+        "foreign member. Nested histories = {two decompress blocks of equally "
+        "named archives of two directories, compress(name) inside "
+        "decompress(name)} x formats x 2 names x 2 contents (thorough: 5) x "
+        "tmpdir, undisturbed and with the caller raising at 3 positions x "
+        "{Exception, BaseException}. Non-trivial = the disturbance happened: "
+        "the body exception was raised / the injected fault fired / the "
+        "damaged archive made decompress raise; undisturbed executions count "
+        "when the arguments name a compression format (an archive is written "
+        "/ unpacked, not passed through). Distinct by construction.")
 ASSUMPTIONS = [
     "faults are exceptions raised at the seams reachable from the "
     "typhon.files.utils namespace (open, os, shutil, tempfile, the compressor "
     "table); writes that bz2/lzma/zipfile issue internally are represented "
-    "by the copy step failing before / half-way / after",
+    "by the copy step failing before / half-way / after. An audit hook "
+    "(open, os.remove/rename/mkdir/rmdir/link/symlink/truncate/chmod/utime, "
+    "shutil.*, tempfile.*) counts every such operation of a recording "
+    "execution that typhon.files.utils reaches without passing a seam "
+    "(file_operations_outside_seams in the evidence: no fault is injected "
+    "there, the before/after comparison of all directories still holds); "
+    "the removal of compress's TemporaryDirectory is the one "
+    "known operation that is no fault point",
+    "the user's files that must survive are decoys named 'temp' and <stem of "
+    "the named file> in the directory for temporaries in use, <stem> next to "
+    "the named file and the file a decompress target= names; a temporary "
+    "with another predictable name is noticed only by the nested histories "
+    "(two open blocks yielding one name)",
+    "a decompress target= that exists is, as documented, overwritten and "
+    "removed with the copy; after a failure it may also still be the user's "
+    "file, byte for byte",
+    "compress_as() is exercised through compress() only: its own arguments "
+    "keep= and target=None are not part of the statement",
     "the 100 MiB copy-chunk boundary is crossed for gz, zip and xz only (one "
     "content, thorough tier, default tmpdir, OSError faults with the 'half' "
     "point placed exactly after the first chunk, no damaged archives); bz2 "
@@ -136,38 +166,59 @@ def names(tier, via, fmt):
             out += [("a.b.c.%s" % fmt, fmt), ("with space", None)]
         return out
     out = ["plain", "data.dat", "dir.with.dots/noext", "a.gz.txt", "gz"]
+    # a compression suffix on the directory only, a format name as file name
+    out += ["arch.gz/plain", "zip.d/bz2"]
     # suffixes that equal a format name but for letter case: both functions
     # have to agree that these are not compression suffixes
     out += ["GRANULE.%s" % f.upper() for f in FORMATS] + ["scene.Zip"]
     if tier == "thorough":
-        out += ["with space.txt", "archive.gzip", "a.xzz", "zip.d/bz2"]
+        out += ["with space.txt", "archive.gzip", "a.xzz"]
     return [(n, None) for n in out]
 
 
+SPELLINGS = ("str", "Path", "relative")
+SPELLED_CONTENT = "1byte"
+NESTED_CONTENTS = ("1byte", "text70k")
+
+
 def shards(tier, seed):
+    """history: all argument variants of one (name, content); the content
+    SPELLED_CONTENT also with the name given as pathlib.Path and relative to
+    the working directory. large: one variant of the large content, split
+    into the executions disturbed in the caller's block and those at the
+    seams. nested: the histories of two blocks."""
     ckeys = list(SMALL) + (list(BOUNDARY) if tier == "thorough" else [])
-    out = []
+    targets = (False, "existing") if tier == "quick" else \
+        (False, "new", "existing")
+    histories = []
     for via in ("suffix", "fmt"):
         for fmt in FORMATS:
-            for name, dfmt in names(tier, via, fmt):
-                out += [(via, fmt, name, dfmt, ckey) for ckey in ckeys]
-    for name, _ in names(tier, "none", None):
-        out += [("none", None, name, None, ckey) for ckey in ckeys]
-    if tier == "quick":
-        # one content larger than the 100 MiB copy chunk, without injected
-        # faults, for one format of each compress_as branch
-        out += [("suffix", fmt, "big.%s" % fmt, fmt, "100MiB+1", phase, False,
-                 "block")
-                for fmt in ("gz", "xz") for phase in ("compress",
-                                                      "decompress")]
-    if tier == "thorough":
-        out += [("suffix", fmt, "big.%s" % fmt, fmt, "100MiB+1", phase, flag,
-                 part)
-                for fmt in ("gz", "zip", "xz")
-                for phase in ("compress", "decompress")
-                for flag in (False, True)
-                for part in ("block", "seams")]
+            histories += [(via, fmt, name, dfmt)
+                          for name, dfmt in names(tier, via, fmt)]
+    histories += [("none", None, name, None)
+                  for name, _ in names(tier, "none", None)]
+    out = [dict(part="history", via=via, fmt=fmt, name=name, dfmt=dfmt,
+                content=ckey, targets=targets)
+           for via, fmt, name, dfmt in histories for ckey in ckeys]
+    large_variants = [("gz", "xz"), (False,), ("block",)] \
+        if tier == "quick" else \
+        [("gz", "zip", "xz"), (False, True), ("block", "seams")]
+    out += [dict(part="large", via="suffix", fmt=fmt, name="big.%s" % fmt,
+                 dfmt=fmt, content="100MiB+1", phase=phase, flag=flag,
+                 only=only)
+            for fmt in large_variants[0]
+            for phase in ("compress", "decompress")
+            for flag in large_variants[1] for only in large_variants[2]]
+    out += [dict(part="nested", fmt=fmt, name=name % fmt, content=ckey)
+            for fmt in FORMATS for name in ("a.%s", "dir.with.dots/a.nc.%s")
+            for ckey in (NESTED_CONTENTS if tier == "quick" else SMALL)]
     return out
+
+
+def inner_content(ckey):
+    """The content of the second archive of a nested history."""
+    keys = list(SMALL)
+    return keys[(keys.index(ckey) + 1) % len(keys)]
 
 
 # --------------------------------------------------------------------------
@@ -227,15 +278,39 @@ def blake(data):
     return hashlib.blake2b(data, digest_size=16).hexdigest()
 
 
+DECOY = b"a file of the user, not a temporary\n"
+TARGET = "copy.bin"
+
+
 class Box:
     """The directories one execution may touch: tmp (tempfile.tempdir),
-    xtmp (explicit tmpdir=), out (the named file), dt (decompress target=)."""
+    xtmp (explicit tmpdir=), out (the named file; working directory), dt
+    (decompress target=). With a case they hold decoys: files of the user
+    under the names a temporary of this history could be given ('temp' and
+    the stem of the named file in the directory for temporaries, the stem
+    next to the named file, the target of decompress)."""
 
-    def __init__(self, root):
+    def __init__(self, root, case=None):
         self.root = tempfile.mkdtemp(dir=root)
         for d in ("tmp", "xtmp", "out", "dt"):
             os.mkdir(os.path.join(self.root, d))
             setattr(self, d, os.path.join(self.root, d))
+        self.decoys = set()
+        if case is None:
+            return
+        base = os.path.basename(case["name"])
+        stem = os.path.splitext(base)[0]
+        temporaries = self.xtmp if case["tmpdir"] else self.tmp
+        self.decoys = {os.path.join(temporaries, "temp"),
+                       os.path.join(temporaries, stem)}
+        if case.get("target") in (False, "existing"):
+            self.decoys.add(os.path.join(self.dt, TARGET))
+        if stem != base:
+            self.decoys.add(self.place(os.path.join(
+                os.path.dirname(case["name"]), stem)))
+        for path in self.decoys:
+            with open(path, "wb") as f:
+                f.write(DECOY)
 
     def place(self, name, data=None):
         path = os.path.join(self.out, name)
@@ -256,6 +331,9 @@ class Box:
 
     def inside(self, path, d):
         return path.startswith(getattr(self, d) + os.sep)
+
+    def touched(self, diff):
+        return sorted(p for p in diff if p in self.decoys)
 
 
 def differences(before, after):
@@ -323,6 +401,68 @@ def seams(plan, half):
 
 
 # --------------------------------------------------------------------------
+# completeness of the seams
+# --------------------------------------------------------------------------
+
+IO_EVENTS = ("open", "os.remove", "os.rename", "os.mkdir", "os.rmdir",
+             "os.link", "os.symlink", "os.truncate", "os.chmod", "os.utime",
+             "shutil.", "tempfile.")
+HARNESS_FILES = (__file__, fault.__file__)
+WATCH = dict(on=False, under_seam=0, outside=[])
+
+
+def audit(event, args):
+    """Audit hook: while switched on, every file operation whose nearest
+    harness-or-typhon frame is one of typhon.files.utils was reached without
+    passing a seam, i.e. is no fault point. The removal of the
+    TemporaryDirectory of compress is known to be one of these."""
+    if not WATCH["on"] or not event.startswith(IO_EVENTS):
+        return
+    frame = sys._getframe(1)
+    cleanup = False
+    while frame is not None:
+        code = frame.f_code
+        if code.co_filename.startswith("<frozen importlib"):
+            return
+        if code.co_filename in HARNESS_FILES:
+            # the harness itself, or a seam if typhon is the caller
+            break
+        if code.co_filename == tempfile.__file__ and \
+                code.co_name in ("cleanup", "_cleanup", "__exit__"):
+            cleanup = True
+        if code.co_filename == tfu.__file__:
+            if not cleanup:
+                WATCH["outside"].append("%s%r at line %d" % (
+                    event, args[:1], frame.f_lineno))
+            return
+        frame = frame.f_back
+    while frame is not None:
+        if frame.f_code.co_filename == tfu.__file__:
+            WATCH["under_seam"] += 1
+            return
+        frame = frame.f_back
+
+
+sys.addaudithook(audit)
+
+
+@contextlib.contextmanager
+def watched(res, case):
+    """Switches the audit hook on for a recording execution; an operation
+    outside the seams is a gap in the fault coverage (no fault is injected
+    there), not a fault of typhon: it is counted in the evidence."""
+    WATCH.update(on=case["kind"] == "record", under_seam=0, outside=[])
+    try:
+        yield
+    finally:
+        WATCH["on"] = False
+    res.count("file_operations_under_seams", WATCH["under_seam"])
+    res.count("file_operations_outside_seams", len(WATCH["outside"]))
+    for op in WATCH["outside"]:
+        res.add("operations_outside_seams", op.split("(")[0])
+
+
+# --------------------------------------------------------------------------
 # one execution
 # --------------------------------------------------------------------------
 
@@ -341,22 +481,23 @@ def execute(case, root, plan=None):
     disturbed?)"""
     content = content_bytes(case["content"])
     plan = plan or plan_of(case)
-    box = Box(root)
-    saved = tempfile.tempdir
+    box = Box(root, case)
+    saved = tempfile.tempdir, os.getcwd()
     tempfile.tempdir = box.tmp
+    os.chdir(box.out)
     try:
         if case["kind"] in ("record", "inject"):
             env = fault.patched(tfu, **seams(plan, half_of(case, content)))
         else:
             env = contextlib.nullcontext()
-        phase = run_compress if case["phase"] == "compress" else \
-            run_decompress
-        bad, disturbed = phase(case, content, box, env, root, plan)
+        bad, disturbed = PHASES[case["phase"]](case, content, box, env, root,
+                                               plan)
         if case["kind"] == "inject":
             disturbed = plan.fired is not None
         return bad, plan, disturbed
     finally:
-        tempfile.tempdir = saved
+        tempfile.tempdir = saved[0]
+        os.chdir(saved[1])
         shutil.rmtree(box.root)
 
 
@@ -365,9 +506,39 @@ def body_exception(case, where):
         raise BODY_EXCS[case["exc"]]("raised in the caller's block")
 
 
+def spelled(path, case, box):
+    """The named file as the caller writes it."""
+    if case["spelling"] == "Path":
+        return pathlib.Path(path)
+    if case["spelling"] == "relative":
+        return os.path.relpath(path, box.out)
+    return path
+
+
+def is_file(yielded, path):
+    return yielded is not None and \
+        os.path.abspath(os.fspath(yielded)) == path
+
+
+def passed_through(yielded, given):
+    return yielded is not None and os.fspath(yielded) == os.fspath(given)
+
+
+def digest_or_none(path):
+    try:
+        return digest(path)
+    except OSError:
+        return None
+
+
+HOW = {"plain": "success", "record": "success", "body": "body-exception",
+       "inject": "fault", "damage": "damaged-archive"}
+
+
 def run_compress(case, content, box, env, root, plan):
     fmt = case["fmt"] if case["via"] != "none" else None
     path = box.place(case["name"], OLD_TARGET if case["existing"] else None)
+    given = spelled(path, case, box)
     kwargs = {}
     if case["via"] == "fmt":
         kwargs["fmt"] = fmt
@@ -377,7 +548,7 @@ def run_compress(case, content, box, env, root, plan):
     yielded = raised = None
     try:
         with env:
-            with tfu.compress(path, **kwargs) as f:
+            with tfu.compress(given, **kwargs) as f:
                 yielded = f
                 body_exception(case, "enter")
                 with open(f, "wb") as fh:
@@ -386,13 +557,15 @@ def run_compress(case, content, box, env, root, plan):
     except (Exception, fault.Abort) as e:
         raised = e
     diff = differences(before, box.snap())
-    how = {"plain": "success", "record": "success",
-           "body": "body-exception", "inject": "fault"}[case["kind"]]
+    how = HOW[case["kind"]]
     disturbed = case["kind"] == "body" and raised is not None
 
+    if box.touched(diff):
+        return ("compress/foreign-file-touched", [], box.touched(diff),
+                ""), disturbed
     if fmt is None:
-        if yielded != path:
-            return ("passthrough/compress-yields-another-name", path,
+        if not passed_through(yielded, given):
+            return ("passthrough/compress-yields-another-name", given,
                     yielded, ""), False
         if [p for p in diff if p != path]:
             return ("passthrough/compress-touches-other-files", [path], diff,
@@ -403,7 +576,7 @@ def run_compress(case, content, box, env, root, plan):
                 False
         return None, disturbed
 
-    if yielded == path:
+    if is_file(yielded, path):
         return ("format/%s-not-recognised" % fmt,
                 "a temporary name; %s stored as a %s archive" % (
                     case["name"], fmt),
@@ -438,12 +611,12 @@ def run_compress(case, content, box, env, root, plan):
     return None, disturbed or (how == "success")
 
 
-def product(case, root):
+def product(case, root, content=None):
     """What decompress is given: the file typhon's compress() stores for this
-    history, or the stdlib's archive if that is not a genuine one (reported
-    by the compress phase)."""
-    return _product(case["via"], case["fmt"], case["name"], case["content"],
-                    root)
+    history (or for another content of it), or the stdlib's archive if that
+    is not a genuine one (reported by the compress phase)."""
+    return _product(case["via"], case["fmt"], case["name"],
+                    content or case["content"], root)
 
 
 @functools.lru_cache(maxsize=2)
@@ -452,8 +625,9 @@ def _product(via, fmt, name, ckey, root):
     if via == "none":
         return content
     box = Box(root)
-    saved = tempfile.tempdir
+    saved = tempfile.tempdir, WATCH["on"]
     tempfile.tempdir = box.tmp
+    WATCH["on"] = False      # compress runs without seams here
     try:
         path = box.place(name)
         with tfu.compress(path, **({"fmt": fmt} if via == "fmt" else {})) \
@@ -465,7 +639,7 @@ def _product(via, fmt, name, ckey, root):
     except Exception:
         stored = b""
     finally:
-        tempfile.tempdir = saved
+        tempfile.tempdir, WATCH["on"] = saved
         shutil.rmtree(box.root)
     if verify_archive(fmt, stored, content) is None:
         return stored
@@ -493,31 +667,41 @@ def run_decompress(case, content, box, env, root, plan):
     if case["kind"] == "damage":
         archive = damaged(case, archive, content)
     path = box.place(case["name"], archive)
+    given = spelled(path, case, box)
     kwargs = {}
     if case["tmpdir"]:
         kwargs["tmpdir"] = box.xtmp
     if case["target"]:
-        kwargs["target"] = os.path.join(box.dt, "copy.bin")
+        kwargs["target"] = os.path.join(box.dt, TARGET)
     before = box.snap()
     yielded = raised = got = None
     try:
         with env:
-            with tfu.decompress(path, **kwargs) as g:
+            with tfu.decompress(given, **kwargs) as g:
                 yielded = g
                 body_exception(case, "enter")
                 got = digest(g)
                 body_exception(case, "read")
     except (Exception, fault.Abort) as e:
         raised = e
-    diff = differences(before, box.snap())
-    how = {"plain": "success", "record": "success",
-           "body": "body-exception", "inject": "fault",
-           "damage": "damaged-archive"}[case["kind"]]
+    after = box.snap()
+    if case["target"] == "existing" and dfmt:
+        # "this file will be overwritten with the decompressed content and
+        # deleted after leaving the with-block": it is the copy, unless an
+        # early failure left the user's file as it was
+        box.decoys.remove(kwargs["target"])
+        if kwargs["target"] not in after:
+            del before[kwargs["target"]]
+    diff = differences(before, after)
+    how = HOW[case["kind"]]
     disturbed = case["kind"] in ("body", "damage") and raised is not None
 
+    if box.touched(diff):
+        return ("decompress/foreign-file-touched", [], box.touched(diff),
+                ""), disturbed
     if dfmt is None:
-        if yielded != path:
-            return ("passthrough/decompress-yields-another-name", path,
+        if not passed_through(yielded, given):
+            return ("passthrough/decompress-yields-another-name", given,
                     yielded, ""), False
         if diff:
             return ("passthrough/decompress-touches-files", [], diff, ""), \
@@ -528,7 +712,7 @@ def run_decompress(case, content, box, env, root, plan):
                 False
         return None, disturbed
 
-    if yielded == path:
+    if is_file(yielded, path):
         return ("format/%s-not-recognised" % dfmt,
                 "a decompressed temporary copy of " + case["name"],
                 "decompress yields the archive itself", ""), disturbed
@@ -554,43 +738,178 @@ def run_decompress(case, content, box, env, root, plan):
     return None, disturbed or (how == "success")
 
 
+def run_twice(case, content, box, env, root, plan):
+    """Two equally named archives of different directories, decompressed in
+    nested blocks with the same tmpdir."""
+    second = content_bytes(inner_content(case["content"]))
+    paths = [box.place("one/" + case["name"], product(case, root)),
+             box.place("two/" + case["name"],
+                       product(case, root, inner_content(case["content"])))]
+    kwargs = {"tmpdir": box.xtmp} if case["tmpdir"] else {}
+    before = box.snap()
+    seen = {}
+    raised = None
+    try:
+        with tfu.decompress(paths[0], **kwargs) as outer:
+            seen["outer"] = outer
+            body_exception(case, "outer")
+            with tfu.decompress(paths[1], **kwargs) as inner:
+                seen["inner"] = inner
+                body_exception(case, "inner")
+                seen["read"] = [digest_or_none(outer), digest_or_none(inner)]
+            seen["between"] = [digest_or_none(outer), digest_or_none(inner)]
+            body_exception(case, "after")
+    except (Exception, fault.Abort) as e:
+        raised = e
+    diff = differences(before, box.snap())
+    how = HOW[case["kind"]]
+    disturbed = case["kind"] == "body" and raised is not None
+    wanted = [blake(content), blake(second)]
+
+    if box.touched(diff):
+        return ("nested/foreign-file-touched", [], box.touched(diff),
+                ""), disturbed
+    if is_file(seen.get("outer"), paths[0]):
+        return ("format/%s-not-recognised" % case["fmt"],
+                "a decompressed temporary copy of " + case["name"],
+                "decompress yields the archive itself", ""), disturbed
+    if "inner" in seen and seen["inner"] == seen["outer"]:
+        return ("nested/one-temporary-for-two-open-blocks", "two names",
+                seen["outer"], ""), disturbed
+    if seen.get("read", wanted) != wanted:
+        return ("nested/content-differs-while-both-open", wanted,
+                seen["read"], "digests of [outer, inner] copy"), disturbed
+    if seen.get("between", [wanted[0], None]) != [wanted[0], None]:
+        return ("nested/copies-after-inner-block", [wanted[0], None],
+                seen["between"], "digests of [outer, inner] copy; the "
+                "inner one has to be gone"), disturbed
+    if diff:
+        return ("nested/copy-remains-after-" + how, [], diff, ""), disturbed
+    if how == "success" and raised is not None:
+        return ("nested/exception/" + type(raised).__name__, None,
+                repr(raised)[:200], ""), disturbed
+    return None, disturbed or (how == "success")
+
+
+APPENDED = b"appended inside the decompress block\n"
+
+
+def run_rewrite(case, content, box, env, root, plan):
+    """Read-modify-write: compress(name) inside decompress(name)."""
+    archive = product(case, root)
+    path = box.place(case["name"], archive)
+    kwargs = {"tmpdir": box.xtmp} if case["tmpdir"] else {}
+    before = box.snap()
+    seen = {}
+    raised = None
+    try:
+        with tfu.decompress(path, **kwargs) as outer:
+            seen["outer"] = outer
+            body_exception(case, "outer")
+            seen["read"] = digest_or_none(outer)
+            with tfu.compress(path, **kwargs) as inner:
+                seen["inner"] = inner
+                body_exception(case, "inner")
+                shutil.copyfile(outer, inner)
+                with open(inner, "ab") as fh:
+                    fh.write(APPENDED)
+            seen["written"] = True
+            body_exception(case, "after")
+    except (Exception, fault.Abort) as e:
+        raised = e
+    diff = differences(before, box.snap())
+    how = HOW[case["kind"]]
+    disturbed = case["kind"] == "body" and raised is not None
+
+    if box.touched(diff):
+        return ("nested/foreign-file-touched", [], box.touched(diff),
+                ""), disturbed
+    if "inner" in seen and seen["inner"] == seen["outer"]:
+        return ("nested/one-temporary-for-two-open-blocks", "two names",
+                seen["outer"], ""), disturbed
+    if seen.get("read", blake(content)) != blake(content):
+        return ("roundtrip/content-differs", blake(content), seen["read"],
+                "digests"), disturbed
+    if [p for p in diff if p != path]:
+        return ("nested/temporary-remains-after-" + how, [path], diff,
+                ""), disturbed
+    if "written" not in seen:
+        if diff:
+            return ("compress/target-modified-by-failed-block",
+                    "target as before", diff, ""), disturbed
+    else:
+        with open(path, "rb") as f:
+            problem = verify_archive(case["fmt"], f.read(),
+                                     content + APPENDED)
+        if problem:
+            return ("nested/rewritten-" + problem, None, None, ""), disturbed
+    if how == "success" and raised is not None:
+        return ("nested/exception/" + type(raised).__name__, None,
+                repr(raised)[:200], ""), disturbed
+    return None, disturbed or (how == "success")
+
+
+PHASES = dict(compress=run_compress, decompress=run_decompress,
+              twice=run_twice, rewrite=run_rewrite)
+
+
 # --------------------------------------------------------------------------
 # enumeration
 # --------------------------------------------------------------------------
 
-def phase_cases(base):
+def phase_cases(base, damages=True):
     """The undisturbed execution, the body exceptions and the damaged
     archives of one phase (the injected faults follow from the recording)."""
     yield dict(base, kind="plain")
-    second = "written" if base["phase"] == "compress" else "read"
-    for where in ("enter", second):
+    places = {"compress": ("enter", "written"),
+              "decompress": ("enter", "read")}.get(
+                  base["phase"], ("outer", "inner", "after"))
+    for where in places:
         for exc in BODY_EXCS:
             yield dict(base, kind="body", where=where, exc=exc)
-    if base["phase"] == "decompress" and base["dfmt"] \
-            and base["content"] != "100MiB+1":
+    if damages and base["phase"] == "decompress" and base["dfmt"]:
         for damage in DAMAGES + (["member"] if base["dfmt"] == "zip" else []):
             yield dict(base, kind="damage", damage=damage)
 
 
+def flagged(phase, flag):
+    return {"existing" if phase == "compress" else "target": flag}
+
+
 def history_cases(shard):
-    """Small contents: all argument variants in one shard; the large content
-    (default tmpdir only): one (phase, existing / target) variant, split into
-    the executions disturbed in the caller's block and those at the seams."""
-    via, fmt, name, dfmt, ckey = shard[:5]
-    base = dict(via=via, fmt=fmt, name=name, dfmt=dfmt, content=ckey)
-    if len(shard) > 5:
-        variants = [(False,) + shard[5:7]]
-    else:
-        variants = [(tmpdir, phase, flag) for tmpdir in (False, True)
-                    for phase in ("compress", "decompress")
-                    for flag in (False, True)]
-    for tmpdir, phase, flag in variants:
-        yield dict(base, phase=phase, tmpdir=tmpdir,
-                   **{"existing" if phase == "compress" else "target": flag})
+    """-> [(base case, with the damaged archives and the seams?)]"""
+    base = {k: shard[k] for k in ("via", "fmt", "name", "dfmt", "content")}
+    if shard["part"] == "large":
+        # default tmpdir only
+        flag = "new" if shard["flag"] and shard["phase"] == "decompress" \
+            else shard["flag"]
+        return [(dict(base, phase=shard["phase"], tmpdir=False,
+                      spelling="str", **flagged(shard["phase"], flag)),
+                 False)]
+    flags = {"compress": (False, True), "decompress": shard["targets"]}
+    out = [(dict(base, phase=phase, tmpdir=tmpdir, spelling="str",
+                 **flagged(phase, flag)), True)
+           for tmpdir in (False, True) for phase in flags
+           for flag in flags[phase]]
+    if shard["content"] == SPELLED_CONTENT:
+        out += [(dict(base, phase=phase, tmpdir=False, spelling=spelling,
+                      **flagged(phase, flag)), False)
+                for spelling in SPELLINGS[1:] for phase in flags
+                for flag in flags[phase]]
+    return out
+
+
+def nested_cases(shard):
+    for phase in ("twice", "rewrite"):
+        for tmpdir in (False, True):
+            yield dict(via="suffix", fmt=shard["fmt"], name=shard["name"],
+                       dfmt=shard["fmt"], content=shard["content"],
+                       phase=phase, tmpdir=tmpdir)
 
 
 def evaluate(res, case, root, plan=None):
-    bad, plan, disturbed = execute(case, root, plan)
+    with watched(res, case):
+        bad, plan, disturbed = execute(case, root, plan)
     res.case(nontrivial=disturbed)
     res.add("outcomes", (case["phase"], case["kind"], plan.fired,
                          bad[0] if bad else None))
@@ -602,38 +921,47 @@ def evaluate(res, case, root, plan=None):
     return plan
 
 
+def explore_seams(res, base, root, excs):
+    def run(plan):
+        if plan.inject_at is None:
+            case = dict(base, kind="record")
+        else:
+            case = dict(base, kind="inject", at=plan.inject_at,
+                        exc=plan.exc.__name__)
+        evaluate(res, case, root, plan)
+        return case
+    case = None
+    try:
+        for plan, case in fault.explore(run, excs):
+            if plan.inject_at is None:
+                res.count("fault_points", len(plan.trace))
+                res.maximum("fault_points_per_execution", len(plan.trace))
+                for label in plan.trace:
+                    res.add("fault_point_labels", label)
+            else:
+                res.count("faults_fired")
+    except fault.Nondeterminism as e:
+        res.error("NONDETERMINISM %r: %s" % (base, e))
+    return case
+
+
 def run_shard(shard):
     res = driver.ShardResult()
     root = driver.fresh_dir("c12")
-    excs = [fault.Fault] if shard[4] == "100MiB+1" else list(EXCS.values())
-    part = shard[7] if len(shard) > 7 else None
     case = None
-    for base in history_cases(shard):
-        if part != "seams":
+    if shard["part"] == "nested":
+        for base in nested_cases(shard):
             for case in phase_cases(base):
                 evaluate(res, case, root)
-        if part == "block":
-            continue
-
-        def run(plan):
-            if plan.inject_at is None:
-                case = dict(base, kind="record")
-            else:
-                case = dict(base, kind="inject", at=plan.inject_at,
-                            exc=plan.exc.__name__)
-            evaluate(res, case, root, plan)
-            return case
-        try:
-            for plan, case in fault.explore(run, excs):
-                if plan.inject_at is None:
-                    res.count("fault_points", len(plan.trace))
-                    res.maximum("fault_points_per_execution", len(plan.trace))
-                    for label in plan.trace:
-                        res.add("fault_point_labels", label)
-                else:
-                    res.count("faults_fired")
-        except fault.Nondeterminism as e:
-            res.error("NONDETERMINISM %r: %s" % (base, e))
+    else:
+        large = shard["part"] == "large"
+        excs = [fault.Fault] if large else list(EXCS.values())
+        for base, full in history_cases(shard):
+            if not large or shard["only"] == "block":
+                for case in phase_cases(base, damages=full):
+                    evaluate(res, case, root)
+            if full or (large and shard["only"] == "seams"):
+                case = explore_seams(res, base, root, excs) or case
     res.sample(case)
     shutil.rmtree(root)
     return res
